@@ -9,7 +9,7 @@ RULE = ("for each honest (seed, message) pair: the honest triple, all 512 single
         "(y+p, x=0 with sign bit), strings that are not points, the all-zero key; crafted (A small-order, S=0, R in the small subgroup) triples that satisfy the "
         "cofactorless equation; constructed (identity key, R = enc(S0*B), S0 + k*L) signatures for S0 = 2^k, 2^k - 1 and boundary values (canonical accepted, aliases rejected); pattern triples; the expected verdict is computed for every case by executing the statement in python (key decodes "
         "permissively and is not all-zero, S < L, encode(S*B - h*A) == R bytewise); non-trivial = mutated or adversarial case; distinct = program text"
-        " Also: every message length 0..=386 with a model-made signature (accepted), an altered and a shortened message (rejected); component shards from C15: canonical-scalar decoder sets, wide reduction, digit recodings (hook), point codec; the corpus again on the checked-arithmetic, force-32bits and native builds.")
+        " Also: signature, key and message at every address offset modulo 8 (+16, 33); every message length 0..=386 with a model-made signature (accepted), an altered and a shortened message (rejected); component shards from C15: canonical-scalar decoder sets, wide reduction, digit recodings (hook), point codec; the corpus again on the checked-arithmetic, force-32bits and native builds.")
 ASSUMPTIONS = ["python RFC 8032 arithmetic as in C13", "point decoding is permissive (y reduced mod p, x = 0 accepted with either sign), as in ref10 and this crate; "
                "the property lists non-canonical encodings separately from non-points"]
 
@@ -159,7 +159,7 @@ def cases(tier):
 
 
 def _own_shards(tier):
-    return [("shard_pair", i) for i in range(len(pairs(tier)))] + [("shard_crafted", None)] + [("shard_msglen", k) for k in range(4)]
+    return [("shard_pair", i) for i in range(len(pairs(tier)))] + [("shard_crafted", None)] + [("shard_msglen", k) for k in range(4)] + [("shard_placement", None)]
 
 
 def _nt(ops, meta):
@@ -193,6 +193,31 @@ def shard_msglen(part, tier):
         if n:
             cs.append(case(msg[:-1] + bytes([msg[-1] ^ 1]), pub, sig))
             cs.append(case(msg[:-1], pub, sig))
+    ck.run(cs, nontrivial=lambda ops, meta: True)
+    ck.stats.states = len(cs)
+    ck.stats.extra["accepting_cases"] = sum(1 for c in cs if c[2]["accept"])
+    return ck.stats
+
+
+def shard_placement(_, tier):
+    """where the caller's arrays lie: the honest triple (accepted) and the triple with one signature bit altered (rejected) with the
+    signature, the key and the message each at every address offset modulo 8 (and 16, 33) from a 64-byte boundary, for a short and a
+    multi-block message (the executor hands verify references into the placed buffers, it does not copy them)"""
+    ck = core.Checker(PROPERTY_ID)
+    seed = pat(5, 11, 32)
+    _, pub = curve.ed_keypair(seed)
+    cs = []
+    offs = list(range(8)) + [16, 33]
+    for n in (5, 400):
+        msg = pat(6, 2, n)
+        sig = curve.ed_sign(msg, seed)
+        bad = bytearray(sig)
+        bad[7] ^= 4
+        bad = bytes(bad)
+        for om in offs:
+            for (op_, os_) in [(o, o) for o in offs] + [(0, o) for o in offs] + [(o, (o + 3) % 8) for o in offs]:
+                cs.append((["ed_verify @%d:%s @%d:%s @%d:%s" % (om, H(msg), op_, H(pub), os_, H(sig))], ["T"], {"mut": False, "accept": True}))
+                cs.append((["ed_verify @%d:%s @%d:%s @%d:%s" % (om, H(msg), op_, H(pub), os_, H(bad))], ["F"], {"mut": True, "accept": False}))
     ck.run(cs, nontrivial=lambda ops, meta: True)
     ck.stats.states = len(cs)
     ck.stats.extra["accepting_cases"] = sum(1 for c in cs if c[2]["accept"])
